@@ -344,3 +344,33 @@ Proof.
   destruct (dense_mass_exact_lemma (orow m s1 a) j Hd Hj) as [H1 [_ [_ [H2 _]]]].
   split; [apply H1; assumption| exact H2].
 Qed.
+
+(* range of the model-level samplers for arbitrary (not necessarily normalised) rows: the index is
+   below the size the row has *)
+Lemma sample_sr_in_range_lemma : forall m s a u, length (trow m s a) = nS m -> (0 < nS m)%nat ->
+  (fst (sample_sr m s a u) < nS m)%nat /\ fst (sample_sr m s a u) = sample_dense (trow m s a) u.
+Proof.
+  intros m s a u Hl Hn. unfold sample_sr. cbn [fst]. split; [| reflexivity].
+  rewrite <- Hl. apply dense_in_range_lemma. intros E. rewrite E in Hl. cbn in Hl. lia.
+Qed.
+
+Lemma sample_or_in_range_lemma : forall m s a s1 u, length (orow m s1 a) = nO m -> (0 < nO m)%nat ->
+  (fst (sample_or m s a s1 u) < nO m)%nat /\ fst (sample_or m s a s1 u) = sample_dense (orow m s1 a) u.
+Proof.
+  intros m s a s1 u Hl Hn. unfold sample_or. cbn [fst]. split; [| reflexivity].
+  rewrite <- Hl. apply dense_in_range_lemma. intros E. rewrite E in Hl. cbn in Hl. lia.
+Qed.
+
+Lemma sample_sor_in_range_lemma : forall m s a u1 u2,
+  (forall s1, (s1 < nS (pm m))%nat -> length (orow m s1 a) = nO m) ->
+  length (trow (pm m) s a) = nS (pm m) -> (0 < nS (pm m))%nat -> (0 < nO m)%nat ->
+  let '(s1, o, r) := sample_sor m s a u1 u2 in
+  (s1 < nS (pm m))%nat /\ (o < nO m)%nat /\
+  s1 = sample_dense (trow (pm m) s a) u1 /\ o = sample_dense (orow m s1 a) u2 /\
+  r = nthq (row (R (pm m)) s) a.
+Proof.
+  intros m s a u1 u2 Hob Hl HS HO. unfold sample_sor, sample_sr.
+  destruct (sample_sr_in_range_lemma (pm m) s a u1 Hl HS) as [H1 _]. unfold sample_sr in H1. cbn [fst] in H1.
+  split; [exact H1|]. split; [| repeat split].
+  rewrite <- (Hob _ H1). apply dense_in_range_lemma. intros E. pose proof (Hob _ H1) as Hl'. rewrite E in Hl'. cbn in Hl'. lia.
+Qed.
